@@ -7,6 +7,7 @@ import KikiVerif.Proofs.Emit
 import KikiVerif.Properties.C09
 import KikiVerif.Model.Validate
 import KikiVerif.Spec.Unparse
+import KikiVerif.Properties.C06
 
 namespace KikiVerif.C13
 open KikiVerif KikiVerif.Emit
@@ -95,8 +96,26 @@ example :
       = "a::B<(), C<d::E, F>>".toList := by
   decide
 
+/-- **C13, field use sites**: in every emitted struct and enum variant, the type written for a used field whose
+symbol is a terminal `$T` is the payload type string stored for `T` in the validated terminal enum — the string
+`C13_type_tokens` shows to be the user's tokens verbatim (`C06_fields`, read for terminals: `SymTy`) -/
+theorem C13_field_sites {f : VFile.File} {enc : Encode.Enc} {t : Table.Table} {sha : Str} {m : Module}
+    (h : moduleOf f enc t sha = some m) (k : Nat) (n : VFile.Nonterminal) (d : TypeDef)
+    (hn : f.nonterminals[k]? = some n) (hd : m.types[k]? = some d) : C06.DefMirrors f.tenum n d :=
+  C06.C06_fields h k n d hn hd
+
+/-- `get_type` answers with the payload type declared for that terminal name -/
+theorem C13_getType_declared (te : VFile.TermEnum) (name ty : Str) (h : te.getType name = some ty) :
+    ∃ v ∈ te.variants, v.name = name ∧ v.ty = ty := by
+  unfold VFile.TermEnum.getType at h
+  simp only [Option.map_eq_some_iff] at h
+  obtain ⟨v, hv, rfl⟩ := h
+  exact ⟨v, List.mem_of_find?_eq_some hv, by simpa using List.find?_some hv, rfl⟩
+
 end KikiVerif.C13
 
 #print axioms KikiVerif.C13.C13_type_tokens
 #print axioms KikiVerif.C13.C13_use_sites
 #print axioms KikiVerif.C13.C13_type_order
+#print axioms KikiVerif.C13.C13_field_sites
+#print axioms KikiVerif.C13.C13_getType_declared
